@@ -538,8 +538,9 @@ func regexKindC07(c *Ctx, tt *tokenTable) {
 		c.Unk("C07.regexkind", "parseRegex: scans", f.Pos(), "parseRegex does not scan a token itself")
 		return
 	}
-	var wrong []string
+	var wrong, erring []string
 	regexOK := false
+	peek := p.SSAFunc(p.Method("Parser", "peekRune"))
 	for _, name := range names {
 		s := p.newSCCP()
 		tv := tt.cv(name)
@@ -548,6 +549,26 @@ func regexKindC07(c *Ctx, tt *tokenTable) {
 				return []cval{tv, cTop, cTop}, true
 			}
 			return nil, false
+		}
+		// behind a `$` the function only probes: a parameter that is not a
+		// regex must come back as "no regex here", not as an error
+		if peek != nil && name != "REGEX" && name != "BOUNDPARAM" {
+			s2 := p.newSCCP()
+			s2.hook = func(call *ssa.Call, args []cval) ([]cval, bool) {
+				switch call.Call.StaticCallee() {
+				case scan, scanRe:
+					return []cval{tv, cTop, cTop}, true
+				case peek:
+					return []cval{cConst(constant.MakeInt64('$'))}, true
+				}
+				return nil, false
+			}
+			for _, rp := range s2.Eval(f, nil) {
+				if len(rp.Results) == 2 && !rp.Results[1].nilc {
+					erring = append(erring, name)
+					break
+				}
+			}
 		}
 		for _, rp := range s.Eval(f, nil) {
 			if len(rp.Results) != 2 || rp.Results[0].nilc {
@@ -561,6 +582,13 @@ func regexKindC07(c *Ctx, tt *tokenTable) {
 		}
 	}
 	c.Check(regexOK, "C07.regexkind", "parseRegex: REGEX token", f.Pos(), "a REGEX token must yield a RegexLiteral")
+	if peek == nil {
+		c.Unk("C07.regexkind", "parseRegex: probe behind `$`", f.Pos(), "peekRune not found")
+	} else if len(erring) == 0 {
+		c.OK("C07.regexkind", "parseRegex: probe behind `$`", f.Pos(), "a parameter of another kind is passed over without error")
+	} else {
+		c.Bad("C07.regexkind", "parseRegex: probe behind `$`", f.Pos(), "where the grammar only probes for a regex, a parameter bound to "+joinShort(erring)+" ends in an error instead of being left to the expression parser: the statement fails though the literal written out parses")
+	}
 	if len(wrong) == 0 {
 		c.OK("C07.regexkind", "parseRegex: other tokens", f.Pos(), fmt.Sprintf("%d other tokens yield no literal", len(names)-1))
 	} else {
